@@ -56,8 +56,13 @@ ASSUMPTIONS = [
     "liveness cap: 4096 units (4 s) of virtual time beyond all scripted delays",
 ]
 
-CODES = [200, 201, 202, 204, 304, 404, 500, 599]
-ERR_CODES = [400, 403, 404, 500, 503, 599]
+# statuses a handler may set: only 1xx, 204 and 304 cannot have a body (RFC 9112 6.3); everything
+# else - including 205, 206, 226 and unregistered codes - is framed like a 200.  (1xx as a *final*
+# status is out of scope: C14-C16 own the 101 path, and a strict client treats 1xx as interim.)
+CODES = [200, 201, 202, 203, 204, 205, 206, 226, 299, 304, 400, 403, 404, 410, 418, 451, 500, 503,
+         599]
+CODE_PICK = [200, 200, 201, 204, 204, 304, 304, 404, 500] + CODES
+ERR_CODES = [400, 403, 404, 410, 418, 500, 503, 599]
 REASONS = [None, None, None, "Custom", "Very OK", "Café", "bad<b>", "", "a\r\nX-Evil: 1"]
 NAMES = ["X-A", "x-b", "Vary", "Content-Type", "Etag", "Content-Language", "X-A"]
 DIRTY_NAMES = ["Content-Length", "Transfer-Encoding", "Connection"]
@@ -126,7 +131,7 @@ def gen(rng, tier, index):
     ops = []
     # --- status / headers
     if rng.random() < 0.35:
-        ops.append({"op": "status", "code": rng.choice(CODES), "reason": rng.choice(REASONS)})
+        ops.append({"op": "status", "code": rng.choice(CODE_PICK), "reason": rng.choice(REASONS)})
     for _ in range(rng.choice([0, 0, 1, 1, 2, 3])):
         k = rng.random()
         name = rng.choice(NAMES)
